@@ -346,6 +346,53 @@ pub fn run(ctx: &mut Ctx) {
         }
     });
 
+    // the same three forms at every size class of the public value up to its wire maximum (ECDH point 0..=255 bytes:
+    // all of them; DH public value up to 65535 bytes, where the u16 prefix plus the value no longer fit 16 bits)
+    ctx.floor("cke.size-classes", 280);
+    ctx.sweep("cke-size-classes", 3, |ctx, idx| {
+        let mut r = Rng::new(idx ^ 0xC4E);
+        let sizes: Vec<usize> = match idx {
+            1 => (0..=255).collect(),
+            0 => vec![0, 1, 255, 256, 65531, 65532, 65533, 65534, 65535, 65536, 65537, 70000, 1 << 20],
+            _ => vec![0, 1, 2, 127, 128, 253, 254, 255, 256, 257, 258, 16383, 16384, 32766, 32767, 32768, 65529, 65530, 65531, 65532, 65533, 65534, 65535],
+        };
+        for n in sizes {
+            let data = r.bytes(n);
+            let (v, want_body): (TlsClientKeyExchangeContents, Vec<u8>) = match idx {
+                0 => (TlsClientKeyExchangeContents::Unknown(&data), data.clone()),
+                1 => {
+                    let mut w = W::new();
+                    w.vec8("ecdh_point", &data);
+                    (TlsClientKeyExchangeContents::Ecdh(ECPoint { point: &data }), w.b)
+                }
+                _ => {
+                    let mut w = W::new();
+                    w.vec16("dh_public", &data);
+                    (TlsClientKeyExchangeContents::Dh(&data), w.b)
+                }
+            };
+            let o3 = gen_simple(gen_tls_clientkeyexchange(&v), Vec::new());
+            let msg = TlsMessageHandshake::ClientKeyExchange(v);
+            let want = AHs::ClientKeyExchange(want_body.clone()).to_bytes();
+            ctx.eval();
+            ctx.count("cke.size-classes");
+            ctx.shape(&("cke-size", idx, lc(n)));
+            let outs = [msg.serialize(), TlsMessage::Handshake(msg.clone()).serialize(), o3];
+            for (k, out) in outs.into_iter().enumerate() {
+                match out {
+                    Ok(b) if b == want => match parse_tls_message_handshake(&b) {
+                        Ok((rem, TlsMessage::Handshake(TlsMessageHandshake::ClientKeyExchange(TlsClientKeyExchangeContents::Unknown(body))))) if rem.is_empty() && body == &want_body[..] => {}
+                        other => ctx.violation("c09:cke:parse-back".into(), json!({"form": idx, "public_value_len": n, "parsed": format!("{:.200?}", other)})),
+                    },
+                    other => ctx.violation(
+                        format!("c09:cke:bytes-differ:form={}", idx),
+                        json!({"form": idx, "entry": k, "public_value_len": n, "serialized_len": format!("{:?}", other.as_ref().map(|b| b.len())), "serialized_head": other.as_ref().map(|b| hex_short(&b[..b.len().min(12)])).unwrap_or_default(), "reference_head": hex_short(&want[..want.len().min(12)]), "reference_len": want.len()}),
+                    ),
+                }
+            }
+        }
+    });
+
     // ------------------------------------------------ records of 1..n messages
     let n = ctx.tier.pick(20000, 200000);
     ctx.family("records", n, |ctx, case: &mut Case| {
